@@ -482,13 +482,24 @@ fn get_tests(testing: &syn::File) -> R {
 /// counters ↦ fields of `st__`; integer literals next to them ↦ `i32lit(k)`
 struct Counters<'a>(&'a [String]);
 impl Counters<'_> {
+    /// an expression of the counters' type: a counter, or arithmetic over counters and
+    /// (already converted) literals — `failures % 256`, `(successes + failures)`, …
     fn is_counter_field(&self, e: &Expr) -> Option<String> {
-        if let Expr::Field(f) = e {
-            if f.base.to_token_stream().to_string() == "st__" {
-                return Some(f.member.to_token_stream().to_string());
+        match e {
+            Expr::Field(f) if f.base.to_token_stream().to_string() == "st__" => {
+                Some(f.member.to_token_stream().to_string())
             }
+            Expr::Paren(p) => self.is_counter_field(&p.expr),
+            Expr::Binary(b)
+                if matches!(
+                    b.op,
+                    syn::BinOp::Add(_) | syn::BinOp::Sub(_) | syn::BinOp::Mul(_) | syn::BinOp::Div(_) | syn::BinOp::Rem(_)
+                ) =>
+            {
+                self.is_counter_field(&b.left).or_else(|| self.is_counter_field(&b.right))
+            }
+            _ => None,
         }
-        None
     }
 }
 impl VisitMut for Counters<'_> {
